@@ -106,15 +106,31 @@ def run(ctx):
                 pic = X("a:graphic", {}, [X("a:graphicData", {}, [X("pic:pic", {}, [X("pic:blipFill", {}, [X("a:blip", {"r:embed": "rIdBig"})])])])])
                 pkg.body = [X("w:p", {}, [X("w:r", {}, [X("w:t", {}, [XT("bulk " * 400000)])]), X("w:r", {}, [X("w:drawing", {}, [X("wp:inline", {}, [pic])])])])]
                 named = (i == 2)
+            missing_part = (i == 3)
+            if missing_part:
+                # dedicated: an EMBEDDED picture whose part is not in the package, while files of that name lie next to the (named) input:
+                # the conversion may fail, but an embedded picture is never looked for outside the package
+                from mammoth.docx.xmlparser import element as X, text as XT
+                pkg = gen_xml.Package()
+                pkg.rels = [("rIdMiss", "media/missing.png", B.REL + "image"), ("rIdAbs", "/word/media/absent.png", B.REL + "image")]
+                pic = lambda rid: X("w:drawing", {}, [X("wp:inline", {}, [X("a:graphic", {}, [X("a:graphicData", {}, [X("pic:pic", {}, [X("pic:blipFill", {}, [X("a:blip", {"r:embed": rid})])])])])])])
+                pkg.body = [X("w:p", {}, [X("w:r", {}, [X("w:t", {}, [XT("before")]), pic("rIdMiss" if rng.random() < 0.5 else "rIdAbs")])])]
+                named = True
             d = os.path.join(wd.path, "c%d" % i)
             os.makedirs(d)
+            if missing_part:
+                for rel_ in ("media", os.path.join("word", "media")):
+                    os.makedirs(os.path.join(d, rel_), exist_ok=True)
+                    for nm_ in ("missing.png", "absent.png"):
+                        with open(os.path.join(d, rel_, nm_), "wb") as f_:
+                            f_.write(b"CANARY outside the package")
             conv = rng.choice(["data_uri", "data_uri", "counting", "no_open"])
-            if bulky:
+            if bulky or missing_part:
                 conv = "data_uri"
             opts = {"style_map": None, "include_default_style_map": True, "include_embedded_style_map": True,
                     "ignore_empty_paragraphs": True, "id_prefix": None, "conv": conv}
             data, parts = B.build(pkg)
-            doctype = rng.random() < 0.4 and not bulky
+            doctype = rng.random() < 0.4 and not bulky and not missing_part
             if doctype:
                 data = add_doctype(data, canary, "http://127.0.0.1:9/evil.dtd")
                 dist["with_doctype"] += 1
@@ -202,8 +218,10 @@ def run(ctx):
             dist["external_opens"] += len(norm)
             meta = {"package": gen_xml.pkg_json(pkg) if not bulky else "dedicated bulky package (3 MiB picture, 2 MiB main part)", "named": named, "converter": conv, "doctype": doctype, "index": i}
             bad = None
-            if err is not None:
+            if err is not None and not missing_part:
                 bad = "conversion raised %r instead of returning a warning" % err
+            elif missing_part and (norm != exp or (res is not None and "CANARY" in repr(res.value))):
+                bad = "an embedded picture whose part is missing from the package was looked for outside it: %s" % (norm[:3],)
             elif norm != exp:
                 extra = [e for e in norm if e not in exp]
                 if any(canary in str(a) or "evil.dtd" in str(a) for _, a in norm):
@@ -221,7 +239,7 @@ def run(ctx):
                 if exp or doctype:
                     ctx.nontrivial(i)
                     ctx.sample({"named": named, "converter": conv, "doctype": doctype, "external_accesses": norm[:3]})
-            if not doctype and err is None and not bulky:
+            if not doctype and err is None and not bulky and not missing_part:
                 # correspondence of the result (the model takes what each external target yields as input)
                 raw = mammoth.extract_raw_text(io.BytesIO(data))
                 terms.append(A.case_term(parts, named, linked, opts, res, raw))
